@@ -401,6 +401,14 @@ theorem formats_eq_planet_layout :
     changesetSeqRule = "s.SeqNum++ | s.SeqNum = uint64(n)" ∧
     BaseURL = "https://planet.osm.org" := by decide
 
+/-- which minimum each lookup starts from, as the source has it: 1 for minute, hour and day replication — and the
+    day minimum for changesets too (`minChangeset` = 2007990 is declared but `ChangesetStateAt` passes `minDay`), so a
+    changeset lookup always finds its minimum missing and goes through `findBound`; the theorems for a missing minimum
+    are the ones that apply to it -/
+theorem stater_minima :
+    [stateAtMinMinute, stateAtMinHour, stateAtMinDay, stateAtMinChangeset] = ["minMinute", "minHour", "minDay", "minDay"] ∧
+    [minMinute, minHour, minDay, minChangeset] = [1, 1, 1, 2007990] := by decide
+
 theorem pad3_table : ∀ a : Fin 1000, (pad3 a.val).length = 3 ∧ Nat.ofDigitChars 10 (pad3 a.val) 0 = a.val ∧
     '/' ∉ pad3 a.val := by decide +kernel
 
